@@ -92,12 +92,21 @@ def body_factory(tier):
                             hist.flags.add('c02_faulted_merging_job')
                         faults = fault_list(info)
                         if len(faults) > max_faults:
-                            # generated sample of the placements
+                            # quick tier: every rejection of a destination
+                            # ref (the core of the statement) plus a
+                            # generated sample of the other placements
+                            core = [f for f in faults
+                                    if f['kind'] == 'reject' and is_dest(
+                                        f['ref'][len('refs/heads/'):])
+                                    and not f['once']]
+                            rest = [f for f in faults if f not in core]
+                            k = max(1, max_faults - len(core))
                             idx = data.draw(st.lists(
-                                st.integers(0, len(faults) - 1),
-                                min_size=max_faults, max_size=max_faults,
+                                st.integers(0, len(rest) - 1),
+                                min_size=min(k, len(rest)),
+                                max_size=min(k, len(rest)),
                                 unique=True), label='faults')
-                            faults = [faults[i] for i in sorted(idx)]
+                            faults = core + [rest[i] for i in sorted(idx)]
                         policy = data.draw(st.integers(0, 3),
                                            label='policy')
                         for f in faults:
